@@ -217,7 +217,7 @@ def event_histories(r, n_hist, rep_counts, viols, nontrivial, samples, root):
             for burst in range(r.randrange(3, 12)):
                 nmsg = r.choice([1, 5, 50, 1500])   # 1500 > the queue bound
                 for k in range(nmsg):
-                    sh.call_async("write_event", message="e%d-%d " % (burst, k) + "x" * r.randrange(0, 200))
+                    sh.call_async("write_event", message="e%d-%d " % (burst, k) + "x" * r.randrange(0, 200), level=r.choice(["Info", "Info", "Warn", "Error", "Trace"]))
                 sh.call("ping")
                 for _ in range(6):
                     time.sleep(0.004)
